@@ -184,3 +184,70 @@ package h2
 //@   loop 0 invariant r.connectionWindowSize <= old(r.connectionWindowSize) && (r.connectionWindowSize >= 0 || r.connectionWindowSize == old(r.connectionWindowSize))
 //@   at call 0 of enqueue before assert[frame-within-max-frame-size] len(nextPayload) <= maxPayloadLength
 //@   at call 0 of enqueue before assert[end-stream-only-on-last] as(f, *queuedDataFrame).endStream == (streamEnded && len(data) == 0)
+
+// ---------------------------------------------------------------------------------------------
+// C08: frame dispatch. Every call into a stream processor is recorded in ghost variables (pc*): which processor,
+// which operation, and its arguments. processFrame's postcondition says, per frame type, exactly which call was made.
+// pend* is the ghost record of a header block that is still being continued.
+
+//@ ghost var pcN int
+//@ ghost var pcKind int
+//@ ghost var pcSelf Processor
+//@ ghost var pcEnd bool
+//@ ghost var pcData []byte
+//@ ghost var pcHeaders []hpack.HeaderField
+//@ ghost var pcPrio http2.PriorityParam
+//@ ghost var pcCode http2.ErrCode
+//@ ghost var pcPromise uint32
+//@ ghost var lastDecoded []hpack.HeaderField
+//@ ghost var pendEnd bool
+//@ ghost var pendPrio http2.PriorityParam
+//@ ghost var pendPromise uint32
+//@ specfunc procOf(r *relay, id uint32) Processor
+
+//@ iface DataFrameProcessor.Data
+//@   modifies pcN, pcKind, pcSelf, pcEnd, pcData
+//@   ensures pcN == old(pcN) + 1 && pcKind == 1 && pcSelf == self && pcEnd == streamEnded && pcData == data
+//@ iface HeaderProcessor.Header
+//@   modifies pcN, pcKind, pcSelf, pcEnd, pcHeaders, pcPrio
+//@   ensures pcN == old(pcN) + 1 && pcKind == 2 && pcSelf == self && pcEnd == streamEnded && pcHeaders == headers && pcPrio == priority
+//@ iface PriorityFrameProcessor.Priority
+//@   modifies pcN, pcKind, pcSelf, pcPrio
+//@   ensures pcN == old(pcN) + 1 && pcKind == 3 && pcSelf == self && pcPrio == arg0
+//@ iface RSTStreamProcessor.RSTStream
+//@   modifies pcN, pcKind, pcSelf, pcCode
+//@   ensures pcN == old(pcN) + 1 && pcKind == 4 && pcSelf == self && pcCode == arg0
+//@ iface PushPromiseProcessor.PushPromise
+//@   modifies pcN, pcKind, pcSelf, pcPromise, pcHeaders
+//@   ensures pcN == old(pcN) + 1 && pcKind == 5 && pcSelf == self && pcPromise == promiseID && pcHeaders == headers
+
+//@ func (*relay).processor
+//@   serves C08
+//@   trusted
+//@   ensures result == procOf(r, id)
+
+//@ func (*relay).decodeFull
+//@   serves C08
+//@   trusted
+//@   modifies lastDecoded
+//@   ensures result1 == nil ==> lastDecoded == result0
+
+// A continued header block is completed with the END_STREAM flag, priority or promised stream id of the frame that
+// started it.
+//@ iface continuationState.complete
+//@   modifies pcN, pcKind, pcSelf, pcEnd, pcHeaders, pcPrio, pcPromise
+//@   ensures pcN == old(pcN) + 1 && pcSelf == s && pcHeaders == headers
+//@   ensures typeis(self, *headerContinuation) ==> pcKind == 2 && pcEnd == pendEnd && pcPrio == pendPrio
+//@   ensures typeis(self, *pushPromiseContinuation) ==> pcKind == 5 && pcPromise == pendPromise
+
+//@ func (*headerContinuation).complete
+//@   serves C08
+//@   requires h != nil && h.priority == pendPrio
+//@   modifies pcN, pcKind, pcSelf, pcEnd, pcHeaders, pcPrio
+//@   ensures[continued-headers-keep-end-stream] pcN == old(pcN) + 1 && pcSelf == s && pcHeaders == headers && pcKind == 2 && pcEnd == pendEnd && pcPrio == pendPrio
+
+//@ func (*pushPromiseContinuation).complete
+//@   serves C08
+//@   requires p != nil && p.promiseID == pendPromise
+//@   modifies pcN, pcKind, pcSelf, pcPromise, pcHeaders
+//@   ensures[continued-push-promise-keeps-promised-id] pcN == old(pcN) + 1 && pcSelf == s && pcHeaders == headers && pcKind == 5 && pcPromise == pendPromise
